@@ -123,10 +123,22 @@ def c05_files(rng, tiny_f64: bool) -> typing.Dict[str, str]:
     ] + _rand_float_consts(rng, 14)
     if tiny_f64:      # only while F-FLOAT-LIT-RANGE does not reproduce: rationals whose denominator exceeds the range of double
         floats += ['float64 F64TINY = 4.9406564584124654e-324', 'float64 F64MINN = 2.2250738585072014e-308', 'float64 F64SUB = 1.0e-310']
-    svc_id, msg_id = rng.randint(0, 511), rng.randint(0, 8191)
+    svc_id, msg_id = rng.randint(1, 510), rng.randint(2, 8190)
+    many = rng.randint(33, 40)
     files = {
         'nsa/c05/KInts.1.0.dsdl': '\n'.join(ints) + '\nuint8 x\n@sealed\n',
         'nsa/c05/KFloats.1.%d.dsdl' % rng.randint(0, 9): '\n'.join(floats) + '\n@extent 64\n',
+        # equal rationals at several float widths, in both orders (a literal cache keyed by the value alone would leak the cast)
+        'nsa/c05/KFloatsFwd.1.0.dsdl': 'float16 T16 = 0.1\nfloat32 T32 = 0.1\nfloat64 T64 = 0.1\nfloat32 S32 = 2.0 / 7.0\nfloat64 S64 = 2.0 / 7.0\n'
+                                       'uint8 FIVE8 = 5\nuint64 FIVE64 = 5\nint64 FIVES = 5\n@sealed\n',
+        'nsa/c05/KFloatsRev.1.0.dsdl': 'float64 A64 = 1.0 / 3.0\nfloat32 A32 = 1.0 / 3.0\nfloat16 A16 = 1.0 / 3.0\nfloat64 T64 = 0.1\nfloat32 T32 = 0.1\n'
+                                       'float16 T16 = 0.1\nuint64 FIVE64 = 5\nuint8 FIVE8 = 5\n@sealed\n',
+        # fixed port ids at the boundaries: 0, 1, the largest subject id, the largest service id
+        'nsa/c05/0.PortZero.1.0.dsdl': 'uint8 ZERO = 0\nuint8 x\n@sealed\n',
+        'nsa/c05/1.PortOne.1.0.dsdl': 'bool NO = false\n@extent 0\n',
+        'nsa/c05/8191.PortMaxSubject.1.0.dsdl': 'float32 FZ = 0.0\nuint16 y\n@extent 64\n',
+        'nsa/c05/0.SvcZero.1.0.dsdl': 'uint8 a\n@sealed\n---\nint8 RC_OK = 0\nint8 rc\n@sealed\n',
+        'nsa/c05/511.SvcMax.1.0.dsdl': '@extent 32\n---\n@union\nuint8 a\nbool b\n@extent 64\n',
         'nsa/c05/%d.Beat.1.0.dsdl' % msg_id: 'uint32 UPTIME_MAX = 4294967295\nuint32 uptime\nuint8[<=%d] data\nfloat16[3] v\n@extent %d\n'
                                              % (rng.choice([7, 255, 256, 300]), 8 * rng.randint(320, 400)),
         'nsa/c05/%d.GetThing.%d.%d.dsdl' % (svc_id, rng.randint(0, 3), rng.randint(0, 9)):
@@ -138,6 +150,13 @@ def c05_files(rng, tiny_f64: bool) -> typing.Dict[str, str]:
                                   % (rng.randint(1, 70), rng.choice([1, 255, 256, 1000])),
         'nsa/c05/Uni.1.0.dsdl': '@union\nuint16 LIMIT = 1000\nnsa.c05.Plain.1.0 p\nfloat64 f\nuint8[<=5] s\nnsa.c05.Empty.1.0 e\n@extent %d\n'
                                 % (8 * 2600),
+        # array capacities 1 and large (bit-packed bool arrays included: capacity is the element count, not the byte length)
+        'nsa/c05/Arr.1.0.dsdl': 'uint8[1] a1\nuint8[<=1] v1\nbool[1] b1\nbool[<=1] bv1\nbool[9] b9\nbool[<=%d] bvn\nint17[<=1] x\n'
+                                'nsa.c05.Empty.1.0[1] e1\n@sealed\n' % rng.choice([8, 9, 65, 255, 256]),
+        'nsa/c05/Big.1.0.dsdl': 'uint8[<=%d] data\nbool[<=%d] bits\n@sealed\n' % (rng.choice([65535, 65536, 66000]), rng.choice([4097, 70001])),
+        # unions with 2 and with many options
+        'nsa/c05/U2.1.0.dsdl': '@union\nuint8 a\nuint16 b\n@sealed\n',
+        'nsa/c05/UMany.1.0.dsdl': '@union\n' + ''.join('uint%d o%d\n' % (1 + (i * 7) % 64, i) for i in range(many)) + '@extent %d\n' % (8 * 16),
     }
     return files
 
@@ -608,8 +627,10 @@ def matrix_for(tier: str, rng) -> typing.List[typing.Tuple[str, dict]]:
 
 
 def caps_for(tier: str, rng, maxb: int) -> typing.List[int]:
-    if tier != 'quick' or maxb <= 48:
+    if (tier != 'quick' and maxb <= 4096) or maxb <= 48:
         return list(range(0, maxb + 2))
+    if maxb > 4096:
+        return sorted({0, 1, maxb // 2, maxb - 1, maxb, maxb + 1, rng.randint(0, maxb)})
     s = set(range(0, 12)) | set(range(maxb - 6, maxb + 2)) | {rng.randint(0, maxb) for _ in range(10)}
     return sorted(x for x in s if x >= 0)
 
